@@ -132,9 +132,9 @@ impl TreeBuilderSimulator {
         }
 
         Ok(if tag_name == Tag::Svg {
-            self.enter_ns(Namespace::Svg)
+            Self::enter_foreign_ns(Namespace::Svg)
         } else if tag_name == Tag::Math {
-            self.enter_ns(Namespace::MathML)
+            Self::enter_foreign_ns(Namespace::MathML)
         } else if self.current_ns != Namespace::Html {
             self.get_feedback_for_start_tag_in_foreign_content(tag_name)
         } else {
@@ -175,6 +175,20 @@ impl TreeBuilderSimulator {
     #[inline]
     pub const fn current_ns(&self) -> Namespace {
         self.current_ns
+    }
+
+    /// `<svg/>` and `<math/>` are popped off the stack of open elements right away,
+    /// so whether the namespace is entered depends on the self-closing flag.
+    fn enter_foreign_ns(ns: Namespace) -> TreeBuilderFeedback {
+        request_lexeme(move |this, lexeme| {
+            expect_tag!(lexeme, StartTag { self_closing, .. } => {
+                if self_closing {
+                    TreeBuilderFeedback::None
+                } else {
+                    this.enter_ns(ns)
+                }
+            })
+        })
     }
 
     #[inline]
